@@ -232,7 +232,6 @@ struct Case {
     lines: Vec<String>,
     /// (key, time) of RESTOREs waiting at a gate when a deleting command ran directly at dst after the commit
     f03b_window: std::collections::BTreeSet<String>,
-    pull_delete: bool,
 }
 
 async fn settle(world: &Shared) {
@@ -272,7 +271,7 @@ impl Case {
         let mut c = Case {
             world, s, d, cfg: cfg.clone(), clock: 0, ops: vec![],
             st: ["PRE_CHECK".to_string(), "PRE_CHECK".to_string()],
-            committed: [false, false], lines: vec![], f03b_window: Default::default(), pull_delete: false,
+            committed: [false, false], lines: vec![], f03b_window: Default::default(),
         };
         // the coordinator sets the destination first
         let rd = submit(&c.d, setcluster_words(false, false, cfg.scan).iter().map(|w| w.as_bytes().to_vec()).collect(), 1).await;
@@ -348,7 +347,7 @@ impl Case {
                     "SET" => HCmd::Set(val.clone().unwrap_or_default()),
                     "GETSET" => HCmd::GetSet(val.clone().unwrap_or_default()),
                     "DEL" => HCmd::Del,
-                    "SINTERSTORE" => { self.pull_delete = true; HCmd::DelStore }
+                    "SINTERSTORE" => HCmd::DelStore,
                     _ => return false,
                 };
                 let text = format!("inv {} {} {} {}{}", id, proxy, cmd, key, val.as_ref().map(|v| format!(" {}", v)).unwrap_or_default());
@@ -526,8 +525,9 @@ fn check_case(c: &Case, complete: bool, st: &mut Stats, case_no: u64) {
         } else {
             None
         };
-        let has_pull_delete = c.ops.iter().any(|o| &o.key == k && matches!(o.cmd, HCmd::DelStore));
-        let finding = if has_pull_delete { "F03a" } else if c.f03b_window.contains(k) { "F03b" } else { "" };
+        // F03a (deleting `*STORE` commands on the pull path) is fixed in /repo ddfb301: a failure on a key with a
+        // SINTERSTORE in its history is a plain violation now
+        let finding = if c.f03b_window.contains(k) { "F03b" } else { "" };
         if !linearizable(&ops, &init_of(k), fin.as_ref()) {
             st.count("oracle.not_linearizable");
             st.oracle_failure(case_no, &format!("key {}: acknowledged history is not a linearizable register{}", k,
